@@ -62,6 +62,22 @@ def markup_classes(ctx, pb, hb):
     return res
 
 
+def name_sink_obligations(ctx, rep, rule, why=None):
+    """Text read from file content (HTML titles, mail subjects) that becomes an entry name: whitespace-collapsed first."""
+    prog = ctx.prog
+    dom, eng, pb, hb, ge = build(ctx)
+    for H in ctx.handler_classes():
+        m = prog.resolve_method(H, "getentry")
+        if m is not None:
+            eng.eval_func(m, H, {})
+    for key, rec in sorted(dom.name_sinks.items()):
+        func, node = rec["func"], rec["node"]
+        bad = {"MULTILINE", "LINE"} & rec["kinds"]
+        rep.add(rule, f"{func.qualname}: {norm(node)[:60]}", not bad, ctx.where(func, node),
+                (why or "text that can contain line breaks or tabs becomes an entry name without whitespace collapsing") if bad else f"{sorted(rec['kinds'])}",
+                key=f"{rule}|{func.qualname}|{norm(node)[:60]}", nontrivial=bool(rec["kinds"] - {"CONST", "OBJ"}))
+
+
 def check(ctx, rep):
     prog = ctx.prog
     rep.rule("R13a", "operands interpolated into HTML/WML built by the server: escaped in text, quote-escaped or percent-encoded in attributes", floor=20)
@@ -111,6 +127,19 @@ def check(ctx, rep):
                     if mname == "getblock":
                         args = {"block": K("CONFIG")}
                     eng.eval_func(m, C, args)
+    # what the HTML/WML renderers hand back is the markup they built - nothing rewrites it afterwards
+    if http is not None:
+        for C in prog.subclasses(http):
+            for mname in ("renderobjinfo", "renderdirstart", "renderdirend", "renderabstract"):
+                m = prog.resolve_method(C, mname)
+                if m is None:
+                    continue
+                v = eng.eval_func(m, C, {})
+                bad = sorted(set(v) & {"TAINTED", "MULTILINE", "LINE"})
+                rep.add("R13a", f"{C.name}.{mname}: returns the markup it built", not bad, ctx.where(m),
+                        f"the finished markup passes through something that does not preserve escaping (result is {bad}): a transformation applied "
+                        "after html.escape - Unicode normalisation, unescaping, decoding, character replacement - can turn harmless characters "
+                        "of a name back into < > \" &" if bad else "", key=f"R13a|returns|{C.name}.{mname}")
     # R13e sources: every handler getentry (titles, subjects)
     for H in ctx.handler_classes():
         m = prog.resolve_method(H, "getentry")
